@@ -282,6 +282,10 @@ func (s *Scanner) skipUntilEndRegex() (comment string, err error) {
 		} else if ch1 == eof {
 			return buf.String(), io.EOF
 		}
+		if ch1 == '/' && !skip {
+			// an escaped delimiter is the delimiter itself (as in ScanRegex); the printer escapes it again
+			buf.Truncate(buf.Len() - 1)
+		}
 		if ch1 != '\\' {
 			skip = true
 		} else {
